@@ -330,7 +330,7 @@ class Rendered:
     def new_H(self):
         return H(self.spec)
 
-    def make(self, *, rtc=True, allow=False, Hh=None, model=None, model_given=False, listeners=None, late=(), instance_cbs=True, **kw):
+    def make(self, *, rtc=True, allow=False, Hh=None, model=None, model_given=False, listeners=None, late=(), instance_cbs=True, extra_ctor=(), **kw):
         """Instantiate. Without `model_given` the model is the generated model class when the spec places callbacks on it,
         else the library default; with it, `model` is the user object (may be falsy). Returns (sm, H)."""
         Hh = Hh or self.new_H()
@@ -350,7 +350,7 @@ class Rendered:
             objs["model"] = model
         else:
             model = objs.get("model")
-        ctor_listeners = [objs[p] for p in sorted(objs) if p.startswith("l") and not p.startswith("late")] if listeners is None else listeners
+        ctor_listeners = [objs[p] for p in sorted(objs) if p.startswith("l") and (not p.startswith("late") or p in extra_ctor)] if listeners is None else listeners
         kwargs = dict(rtc=rtc, allow_event_without_transition=allow, **kw)
         if model is not None:
             kwargs["model"] = model
